@@ -19,6 +19,8 @@ var (
 	be = binary.BigEndian
 )
 
+const maxInt = int(^uint(0) >> 1)
+
 type decoder struct {
 	r     io.Reader
 	bytes struct {
@@ -124,6 +126,11 @@ func (d *decoder) decode(r io.Reader, headerOnly, fileIDOnly, crcOnly bool) erro
 	err := d.decodeHeader()
 	if err != nil {
 		return fmt.Errorf("error decoding header: %w", err)
+	}
+
+	if uint64(d.h.DataSize) > uint64(maxInt) {
+		// Only possible where int is 32 bits wide.
+		return FormatError("header data size does not fit in an int on this platform")
 	}
 
 	d.file = new(File)
